@@ -39,7 +39,7 @@ fn descriptor_text(deps: &[String], os: &Option<String>, bp_uri: &str) -> String
     p
 }
 
-const FIXED_KINDS: [&str; 7] = ["libcnb:x/y", "libcnb:z", "a/../b", "/abs/dir/../p", "docker://docker.io/org/img:1.2", "https://example.com/a/../b.cnb?q=1#frag", "urn:cnb:registry:org/bp@1.0.0"];
+const FIXED_KINDS: [&str; 8] = ["libcnb:x/y", "libcnb:z", "a/../b", "/abs/dir/../p", "docker://docker.io/org/img:1.2", "https://example.com/a/../b.cnb?q=1#frag", "urn:cnb:registry:org/bp@1.0.0", "file:///opt/a/../one.cnb"];
 /// `libcnb:` references whose id can never have a packaged location (not a valid buildpack id, or reserved): an error
 // the last two: ids with a leading slash ("/x/y" is a valid id nobody has; "//x/y" has an authority and the path "/y")
 const BAD_LIBCNB: [&str; 6] = ["libcnb:demo_one", "libcnb:app", "libcnb:", "libcnb:sbom", "libcnb:/x/y", "libcnb://x/y"];
@@ -91,6 +91,14 @@ fn run_case(c: &Case) -> (Vec<Viol>, String) {
     }
     if c.map != 3 {
         map.insert("unrelated".parse().unwrap(), packaged_path(root, "unrelated"));
+    }
+    // where an id is missing, ids that differ from it only in letter case are present: they are other buildpacks
+    if c.map == 1 {
+        map.insert("X/Y".parse().unwrap(), packaged_path(root, "SHOUTING-X-Y"));
+        map.insert("x/Y".parse().unwrap(), packaged_path(root, "mixed-x-Y"));
+    }
+    if c.map == 2 {
+        map.insert("Z".parse().unwrap(), packaged_path(root, "SHOUTING-Z"));
     }
     if let Some((pd, pos, puri)) = &c.prev {
         std::fs::write(src.join("package.toml"), descriptor_text(pd, pos, puri)).unwrap();
@@ -334,7 +342,7 @@ pub fn run(args: &Args) {
     rep.cov("repackaging_pairs", pairs);
     rep.cov("dependency_tuples", tuples.len() as u64);
     rep.cov("distinct_outcomes", json!(outcomes));
-    rep.cov("rule", "package.toml documents built from all ordered dependency tuples (repetition allowed) over 7 URI kinds x id->path maps {complete, missing x/y, missing z, empty} x 4 source locations (one with the URI-safe sub-delimiters + @ , = ;, one reached through a symbolic link), libcnb: references with an invalid or reserved id x platform x 7 buildpack uris (., ./, relative, parent-relative, absolute, docker, urn), plus every ordered pair of 18 descriptors packaged one after the other into the same destination (the second result must be what a fresh destination gives), plus every relative path of <= k segments over {a, ., .., empty} with/without leading ./ and trailing /, run through the real package_composite_buildpack; the written file is re-read generically and compared with the reference (lexical normalisation). non-trivial = at least one dependency");
+    rep.cov("rule", "package.toml documents built from all ordered dependency tuples (repetition allowed) over 8 URI kinds (incl. a file: URI, copied verbatim) x id->path maps {complete, missing x/y, missing z, empty; where an id is missing, ids differing from it only in letter case are present} x 4 source locations (one with the URI-safe sub-delimiters + @ , = ;, one reached through a symbolic link), libcnb: references with an invalid or reserved id x platform x 7 buildpack uris (., ./, relative, parent-relative, absolute, docker, urn), plus every ordered pair of 18 descriptors packaged one after the other into the same destination (the second result must be what a fresh destination gives), plus every relative path of <= k segments over {a, ., .., empty} with/without leading ./ and trailing /, run through the real package_composite_buildpack; the written file is re-read generically and compared with the reference (lexical normalisation). non-trivial = at least one dependency");
     rep.cov("bound", json!({"max_tuple_len": max_len, "max_segments": max_segs}));
     rep.cov("exhaustive", true);
     rep.sample(json!(cases[cases.len() / 3]));
